@@ -7,7 +7,7 @@ from props.C03 import duals_to_y
 THEOREMS = ['C18_supergradient', 'C18_nodal_price']
 CFG = {'p_coarse': 0.15, 'p_periodic': 0.1, 'T': (3, 7), 'n_assets': (1, 4), 'nodes': (1, 3), 'p_market': 0.95,
        'kinds': {'SimpleContract': 2, 'Contract': 2, 'Transport': 3, 'Storage': 3,
-                 'MultiCommodityContract': 2, 'OrderBook': 1, 'ExtendedTransport': 1}}
+                 'MultiCommodityContract': 2, 'OrderBook': 1, 'ExtendedTransport': 1, 'StructuredAsset': 2, 'ScaledAsset': 1}}
 
 
 def run(ctx):
@@ -42,13 +42,17 @@ def run(ctx):
                                              'expected': 'decoding the same result twice gives the same price table'}, trigger={'what': 'extraction not repeatable'})
         y = duals_to_y(prob, o['duals'])
         # multipliers of nodal rows are READ FROM THE OUTPUT TABLE: y_N := -price(node, step)
+        # the portfolio's own nodal rows are the last 'N' rows (a structured asset brings the nodal rows of its inner nodes along as asset rows;
+        # those keep the solver's multipliers)
         nrows = [i for i, t in enumerate(prob['cType']) if t == 'N']
         missing = False
-        if len(nrows) != len(prob['map_nodal_restr']):
+        if len(nrows) < len(prob['map_nodal_restr']):
             ctx.violation('impl-violation', {'spec': sp, 'observed': {'nodal rows': len(nrows), 'recorded (step,node) pairs': len(prob['map_nodal_restr'])},
-                                             'expected': 'one recorded (step, node) per nodal row, so that duals can be assigned to prices'},
+                                             'expected': 'a nodal row for every recorded (step, node), so that duals can be assigned to prices'},
                           trigger={'what': 'record-mismatch'})
-        for k, i in enumerate(nrows[:len(prob['map_nodal_restr'])]):
+            continue
+        nrows = nrows[len(nrows) - len(prob['map_nodal_restr']):]
+        for k, i in enumerate(nrows):
             t, node = prob['map_nodal_restr'][k]
             col = pr.get('nodal price: ' + node)
             if col is None or col[t] is None:
@@ -96,7 +100,11 @@ def run(ctx):
             arr = du.get(t)
             y.append(sign[t] * arr[cnt[t]] if arr is not None and cnt[t] < len(arr) else 0.0)
             cnt[t] += 1
-        nrows = [i for i, t in enumerate(ct) if t == 'N']
+        nrows, pos = [], 0
+        for p in s['ops']:
+            own = [pos + i for i, t in enumerate(p['cType']) if t == 'N']
+            nrows += own[len(own) - len(p.get('map_nodal_restr', [])):]
+            pos += len(p['cType'])
         rec = s.get('map_nodal_restr') or []
         pr = s['out']['prices']
         if len(nrows) != len(rec):
